@@ -23,7 +23,7 @@ def cells(tier):
             sc = scen(pool(size), [[A("A", 3)], [cancel(rid("A", 0))], [FLUSH], [P]], outcomes=["ret"],
                       ccb="slow", ecb="plain", slow_ids=[0], worker=worker)
             out.append(cell(f"s{size} A3 cancel0 flush {worker} slowccb", sc, MON))
-    sc = scen(pool(2), [[A("A", 2)], [M("M", 2, 1)], [cancel(rid("M", 0))], [P]], outcomes=["ret", "exc"], ecb="plain", ccb="plain")
+    sc = scen(pool(2), [[A("A", 2)], [M("M", 2, 1)], [cancel(rid("M", 0))], [P]], outcomes=["ret"] if q else ["ret", "exc"], ecb="plain", ccb="plain")
     out.append(cell("s2 A2|M2/1 cancelM0", sc, MON))
     sc = scen(pool(1), [[A("A", 2)], [FLUSH], [P]], outcomes=["ret", "exc"])
     out.append(cell("s1 A2 flush nocb", sc, MON))
